@@ -276,6 +276,27 @@ class ReshapePlugin(PrimitiveLeafPlugin):
             if any(d is not None for d in x_shape):
                 _stamp_type_and_shape(x_val, x_shape)
 
+        # lax.reshape(x, new_sizes, dimensions) reshapes transpose(x, dimensions).
+        dimensions = eqn.params.get("dimensions")
+        if dimensions is not None:
+            perm = [int(d) for d in dimensions]
+            if perm != list(range(len(perm))):
+                transposed = cast(
+                    ir.Value,
+                    ctx.builder.Transpose(
+                        x_val,
+                        perm=perm,
+                        _outputs=[ctx.fresh_name("reshape_dims_transpose")],
+                    ),
+                )
+                if getattr(x_val, "type", None) is not None:
+                    transposed.type = x_val.type
+                if len(x_shape) == len(perm):
+                    x_shape = tuple(x_shape[p] for p in perm)
+                _stamp_type_and_shape(transposed, x_shape)
+                _ensure_value_metadata(ctx, transposed)
+                x_val = transposed
+
         # Helpers to make INT64 constants
         def const_i64_vec(vals: np.ndarray) -> ir.Value:
             arr: np.ndarray[Any, Any] = vals.astype(np.int64, copy=False)
